@@ -190,6 +190,7 @@ type World struct {
 	hasOnef          bool
 	pointArmed       bool
 	holdArmed        bool
+	suspended        bool
 	wtSmall          bool
 	injectComposite  bool    // INJX: after the one-frame commit also end the long reader and run an application PASSIVE checkpoint
 	wtConn           *sql.DB // connection of the open spilled write transaction (ops WT+ / WT- / WTR)
@@ -1167,6 +1168,17 @@ var ckptWindowScripts = func() (l [][2]string) {
 // snapAfterReopenScripts: a snapshot taken by a NEW DB object (nothing synced yet in its session,
 // or only a no-op sync) while the WAL holds committed frames beyond the last replicated position:
 // the snapshot is labelled with that position and must hold exactly its state.
+// stopStartScripts: the SAME DB object is stopped and started again (Close/Open) while the application
+// commits, checkpoints (mode) and commits again with a WAL shorter than / as long as litestream's old
+// position; every acknowledged sync afterwards must restore to the source.
+var stopStartScripts = func() (l []string) {
+	for _, mode := range []string{"TRUNCATE", "PASSIVE", "FULL", "RESTART"} {
+		l = append(l, "OPEN S W W SW SUSPEND W ACK-"+mode+" W RESUME S SW ORACLE W SW ORACLE")
+		l = append(l, "OPEN S W SW SUSPEND W W ACK-"+mode+" W W W RESUME SW ORACLE")
+	}
+	return l
+}()
+
 var snapAfterReopenScripts = []string{
 	"OPEN S W SW REOPEN OPEN S W SNAP ORACLE W S SW ORACLE",
 	"OPEN S W SW REOPEN W OPEN SNAP ORACLE S SW ORACLE",
@@ -1227,6 +1239,22 @@ func runScriptAs(rc *Recorder, dir string, rng *rand.Rand, script, cfgs, scenari
 		case op == "OPEN":
 			if err := open(); err != nil {
 				return err
+			}
+			continue
+		case op == "SUSPEND": // Close of the SAME DB object (IPC stop); acknowledged like any Close
+			if w.ldb != nil {
+				w.trace = append(w.trace, "SUSPEND")
+				w.closeLitestream(rc)
+				w.suspended = true
+			}
+			continue
+		case op == "RESUME": // Open of the same object again (IPC start)
+			if w.ldb != nil && w.suspended {
+				w.trace = append(w.trace, "RESUME")
+				if err := w.ldb.Open(); err != nil {
+					return err
+				}
+				w.suspended = false
 			}
 			continue
 		case op == "ORACLE": // C02/C06: every TXID restores identically with and without the higher levels
@@ -1295,6 +1323,9 @@ func runScriptAs(rc *Recorder, dir string, rng *rand.Rand, script, cfgs, scenari
 		}
 		if op == "CLOSE" {
 			break
+		}
+		if w.suspended && !isAppOp(op) {
+			continue
 		}
 		if w.ldb == nil && !isAppOp(op) {
 			return fmt.Errorf("litestream op %s before OPEN", op)
@@ -1421,7 +1452,10 @@ func main() {
 				err = runC02ShrinkSnapshot(rc, dir, rng)
 			}
 		case "c02":
-			if i%6 == 5 && (i/6)%2 == 1 {
+			if i%6 == 4 && (i/6)%2 == 1 {
+				sc := stopStartScripts[(i/12)%len(stopStartScripts)]
+				err = runScriptAs(rc, dir, rng, sc, "4096,0,1000,0,0,0", "stop-start-app-checkpoint")
+			} else if i%6 == 5 && (i/6)%2 == 1 {
 				sc := snapAfterReopenScripts[(i/12)%len(snapAfterReopenScripts)]
 				err = runScriptAs(rc, dir, rng, sc, "4096,0,1000,0,0,0", "snapshot-after-reopen")
 			} else if i%6 == 5 {
